@@ -488,6 +488,7 @@ func (ex *Exec) yield(s *State) {
 	if ex.dry {
 		ex.dryYield = true
 	}
+	ex.stabCheck(s, ex.fn.Pos(), "before a blocking point")
 	snap := make(map[string]Term, len(s.Heap))
 	var names []string
 	for k, v := range s.Heap {
@@ -509,6 +510,7 @@ func (ex *Exec) yield(s *State) {
 		}
 		s.assume(ex.evalBool(env, r.Expr))
 	}
+	ex.stabRebase(s)
 	ex.usedAssume["A-RELY: while "+ex.key+" blocks, other steps of the same client or session run; afterwards only its rely clauses are assumed (they restate what every step's contract preserves: the invariant, append-only traces, completed exchanges stay completed)"] = true
 }
 
@@ -542,6 +544,14 @@ func (ex *Exec) doSelect(s *State, in *ssa.Select) Val {
 			ex.fail("select send unsupported")
 		}
 		ch := ex.scalar(s, st.Chan)
+		if isValueChan(st.Chan.Type()) {
+			// a channel that carries values (state notifications, ticks): the
+			// case may be taken at any time, with an unconstrained value
+			conds = append(conds, Eq(idx, BVLit(uint64(i), 64)))
+			anyClosed = append(anyClosed, s.declare(ex.g.fresh("ready"), SBool))
+			ex.usedAssume["A-VALUECHAN: a receive from a channel that carries values may deliver any value of its type at any time"] = true
+			continue
+		}
 		conds = append(conds, And(Eq(idx, BVLit(uint64(i), 64)), ex.chanClosed(s, ch)))
 		anyClosed = append(anyClosed, ex.chanClosed(s, ch))
 	}
@@ -553,9 +563,26 @@ func (ex *Exec) doSelect(s *State, in *ssa.Select) Val {
 	tv := TupleV{Scalar{idx}, Scalar{TFalse}}
 	for _, st := range in.States {
 		et := st.Chan.Type().Underlying().(*types.Chan).Elem()
+		if _, basic := et.Underlying().(*types.Basic); basic && isValueChan(st.Chan.Type()) {
+			tv = append(tv, ex.freshVal(s, et, "recv"))
+			continue
+		}
 		tv = append(tv, ex.zeroVal(et))
 	}
 	return tv
+}
+
+// isValueChan: the channel's element type is not the empty struct (channels of
+// struct{} are signal-only: closed, never sent on).
+func isValueChan(t types.Type) bool {
+	ct, ok := t.Underlying().(*types.Chan)
+	if !ok {
+		return false
+	}
+	if st, ok := ct.Elem().Underlying().(*types.Struct); ok && st.NumFields() == 0 {
+		return false
+	}
+	return true
 }
 
 // ---- map range ---------------------------------------------------------------------
